@@ -14,13 +14,7 @@ From Coq Require Import Permutation.
    [param_names] and must be covered by the key, which it is because the key takes the struct) *)
 Theorem C12_source_shape :
   GenC12.key_format_whole = true /\ GenC12.key_format_legacy = false /\
-  GenC12.key_call_args =
-    [["downstream"; "keyPrefix"; """dynamic"""; "keyCfg"; "c.FieldList"];
-     ["downstream"; "keyPrefix"; """emadynamic"""; "keyCfg"; "c.FieldList"];
-     ["downstream"; "keyPrefix"; """totalthroughput"""; "keyCfg"; "c.FieldList"];
-     ["downstream"; "keyPrefix"; """emathroughput"""; "keyCfg"; "c.FieldList"];
-     ["downstream"; "keyPrefix"; """windowedthroughput"""; "keyCfg"; "c.FieldList"]]%string /\
-  length GenC12.key_cfg_is_whole_config = 5%nat /\
+  length GenC12.key_calls_pass_level_and_prefix = 5%nat /\
   GenC12.registry_lookup_or_create = true /\ GenC12.clear_empties_registry = true /\
   GenC12.downstream_prefix_shape = true /\ GenC12.downstream_marked = true /\
   GenC12.toplevel_marked = true /\ GenC12.worker_cache_shape = true /\
